@@ -70,7 +70,8 @@ impl Attribute<'_> for Fingerprint {
 
         let attr_value = value.read_u32::<NE>()?;
 
-        let data = &msg.buffer()[..attr.begin];
+        // the checksum covers the message up to, but excluding, the FINGERPRINT attribute itself
+        let data = &msg.buffer()[..attr.begin - 4];
 
         let crc = Self::crc32(data) ^ 0x5354554e;
 
